@@ -11,6 +11,8 @@ pub trait DynFamily: Sync {
     fn minimise(&self, scn: &Value, v: &Violation, max_exec: usize) -> Result<(Value, Violation, u64, usize), String>;
     fn real_components(&self) -> Vec<&'static str>;
     fn simulated_components(&self) -> Vec<&'static str>;
+    /// all executions of base scenario idx: (scenario, trace hash, violations)
+    fn run_index(&self, seed: u64, tier: Tier, idx: u64) -> Vec<(Value, u64, usize)>;
 }
 
 impl<F: Family> DynFamily for F {
@@ -40,5 +42,12 @@ impl<F: Family> DynFamily for F {
     }
     fn simulated_components(&self) -> Vec<&'static str> {
         Family::simulated_components(self)
+    }
+    fn run_index(&self, seed: u64, tier: Tier, idx: u64) -> Vec<(Value, u64, usize)> {
+        let mut rng = crate::rng::Rng::new(crate::rng::derive_seed(seed, Family::name(self), idx));
+        let base = self.generate(&mut rng, tier, idx);
+        let mut v = vec![];
+        self.execute_all(&base, &mut |sc, out| v.push((serde_json::to_value(&sc).unwrap(), out.trace_hash, out.violations.len())));
+        v
     }
 }
